@@ -24,7 +24,32 @@ CHECKS = {
 		technique="deterministic simulation: real CLCKGen thread on a virtual clock, seeded handler-overrun / stall / wake-latency faults, timing oracle over the recorded history",
 		text="Seeded search over configurations (start frame incl. the hyperframe wrap, indication period, link sets), start/stop/link histories and per-tick fault patterns; every run is judged by a behavioural timing model (no accumulated drift, resync after overrun, frame numbering, indication payload and recipients). Sampling, not proof.",
 		note="Trusts the simulator kernel (virtual time, baton-passed threads) and the oracle in engines/clck.py; tick period accepted within 4 615 000 +/- 2 ns; CPython 3.12 semantics."),
+	"C15": dict(engine="dump", category="fault_enumeration", design_ref="§5/C15",
+		technique="deterministic simulation of the capture file on a simulated disk; crash-point enumeration: every truncation offset of each generated history (sampled offsets for long ones), reopened and compared with a reference list",
+		text="Seeded histories of append/read/reopen on the real DATADumpFile; for short histories every byte offset of the file is a crash point, for long ones record boundaries +/-3, header-internal offsets and a seeded sample; every cut is read back (full read, random access, skip/count) against the model of completely written records. The history space is sampled, the offset space of small histories is enumerated.",
+		note="Trusts SimFile's POSIX append/seek semantics (5 % of histories are mirrored onto a real file), the assumption that a crash leaves a prefix of the byte stream, and the field-by-field reference in engines/dump.py."),
+	"C08": dict(engine="tdma", category="exploration", design_ref="§5/C08",
+		technique="deterministic simulation: real tdma_sched.c driven by simulated frame interrupts and main-context calls, seeded reset/overflow/missed-interrupt faults, lock-step reference model",
+		text="Seeded operation histories (schedule, schedule_set, frame, bare advance/execute, reset, callbacks that schedule or reset from inside execute, overflow bursts) against a frame->items model: exactly-once, right frame, parameters, priority order, empty executed bucket, return values. Sampling, not proof.",
+		note="Trusts the C harness (csrc/tdma) and the model in engines/tdma.py; callbacks report success; don't-cares listed in the evidence assumptions."),
+	"C06": dict(engine="sercomm", category="exploration", design_ref="§5/C06",
+		technique="deterministic simulation: two real sercomm.c instances (host build and target build) joined by simulated UART wires, seeded noise / over-long-frame faults and TX-interrupt points, wire-grammar + priority + delivery oracles",
+		text="Seeded send/pump/noise/over-long histories in both directions; every pulled octet is checked against a reference HDLC encoder and priority-queue model, every callback against the frame that caused it, memory guard zones and panic hooks catch corruption, bounded liveness after the last fault. Sampling, not proof. Two genuine defects are listed in known_findings.json.",
+		note="Trusts the C harness (csrc/sercomm, malloc guard zones), the reference encoder and queue model in engines/sercomm.py; interrupts delivered at call granularity only."),
 }
+
+UM = dict(engine="um", category="exploration",
+	technique="deterministic simulation: the real fake_trx.Application (both threads, all transceivers) on a simulated UDP network and virtual clock, seeded L1 stub actors and network faults, lock-step refinement against a reference model of the virtual Um interface",
+	note="Trusts the simulator kernel, sim/refcodec.py and the reference model engines/um_model.py (DESIGN.md Appendix A); coarse schedules (commands and ticks atomic) unless stated; CPython 3.12.")
+for _pid, _ref, _txt in (
+	("C02", "§5/C02", "Routing oracle: per emitted burst the set of receiving sockets equals the running peers whose Rx frequency in that frame (fixed or hopping per TS 45.002 6.2.3, resolved independently) equals the sender's Tx frequency; never the sender, a powered-off or detuned transceiver."),
+	("C03", "§5/C03", "Exactly-once oracle: every accepted burst ends as emitted in its own tick, reported stale, cleared by power-off or still queued; coarse histories (any advance, duplicates, power cycles, version changes)."),
+	("C05", "§5/C05", "Per delivered CMD datagram exactly one well-formed response to the sender's address with model status/results after the configured delay, nothing for non-CMD datagrams, effects visible through later traffic."),
+	("C10", "§5/C10", "Every forwarded datagram is decoded by the reference codec: recipient's header version, legacy padding, FN/TN, soft bits, RSSI/ToA/C-I model values or windows, modulation and TSC of the training sequence present; nothing sent when metadata leave the protocol ranges."),
+	("C12", "§5/C12", "Power/children/clock model: bound sockets equal the documented port plan, destinations are +100/+101/+102, POWERON status, clock indications to exactly the running clock owners at multiples of the period, ticks iff a clock owner runs, restart at the start frame, hopping and queue forgotten on POWEROFF."),
+	("C18", "§5/C18", "Drop-counter model per receiver: FAKE_DROP n [period] suppresses exactly n matching bursts, RFMUTE on either side suppresses all; one NOPE.ind with noise values on v1 links, nothing on v0; rejected commands change nothing."),
+):
+	CHECKS[_pid] = dict(UM, design_ref=_ref, text=_txt + " Seeded search over configurations, histories and network faults; sampling, not proof.")
 
 PENDING = {pid: "check under construction (engine `%s`, see DESIGN.md §5); not claimed yet" % eng for pid, eng in {
 	"C02": "um", "C03": "um", "C05": "um", "C06": "sercomm", "C08": "tdma", "C10": "um", "C12": "um",
